@@ -1201,6 +1201,48 @@ func (e *lenEng) intLower(v ssa.Value, at *ssa.BasicBlock, d int) (lform, bool) 
 		}
 	}
 	if p, ok := v.(*ssa.Parameter); ok && isInt(p.Type()) {
+		// the least value any caller hands in, when every caller's argument has a constant lower bound
+		if fn := p.Parent(); fn != nil && d < 6 {
+			e.buildCallers()
+			if !e.escapes[fn] && len(e.callers[fn]) > 0 {
+				pi := -1
+				for i, q := range fn.Params {
+					if q == p {
+						pi = i
+					}
+				}
+				best, okAll := int64(0), pi >= 0
+				for ci, call := range e.callers[fn] {
+					if !okAll || pi >= len(call.Call.Args) {
+						okAll = false
+						break
+					}
+					f, ok := e.intLower(call.Call.Args[pi], call.Block(), d+3)
+					if !ok {
+						okAll = false
+						break
+					}
+					for _, coef := range f.t {
+						if coef < 0 {
+							okAll = false
+						}
+					}
+					for k := range f.t {
+						if strings.HasPrefix(k, "s:") {
+							okAll = false
+						}
+					}
+					if ci == 0 || f.c < best {
+						best = f.c
+					}
+				}
+				if okAll && best > 0 {
+					out := lconst(best)
+					out.exact = false
+					return out, true
+				}
+			}
+		}
 		return e.signedAtom(p), true // itself: a quantity of unknown sign
 	}
 	return lform{}, false
